@@ -170,7 +170,7 @@ def parse_ob_line_vw(
 ) -> list[str | None]:
     """Parse a sparse vw line into a pandas df with pre-defined namespace"""
 
-    all_line_parts = line_string.strip().split('|')
+    all_line_parts = line_string.strip(' \r\n').split('|')
     label_part = all_line_parts[0].split(' ')[0]
     remainder = all_line_parts[1:]
     label = label_part
@@ -178,7 +178,7 @@ def parse_ob_line_vw(
 
     # Hash multi-value tuples and store name-val mappings
     for remaining_part in remainder:
-        core_parts = remaining_part.strip().split(' ')
+        core_parts = remaining_part.strip(' ').split(' ')
         namespace_part = core_parts[0]
         other_parts = '-'.join(x for x in core_parts[1:] if x != '')
 
